@@ -23,6 +23,9 @@ COMMON_ASSUMPTIONS = [
     "library functions without a sidecar contract are pure, deterministic functions of their arguments (uninterpreted symbols), except the listed random/mutating models",
     "exceptions other than those the contract mentions do not occur inside assumed library calls when their stated preconditions hold",
     "termination is not verified",
+    "the verifier itself is trusted: engine A's translation of the Python subset and its loop summaries (map / fold at a Skolem index, "
+    "filter and concat-map sequences with their monotonicity axioms, OR / sum accumulators, nested stores without aliasing of inner "
+    "lists) -- DESIGN.md 2.1, 10.2, 10.9; validated by seeded changes and mutation drills, not proved",
 ]
 
 
